@@ -5,6 +5,7 @@ Oracle: p21read exits non-zero AND the read severity is worse than USERMSG; ever
 reference k (and, for unterminated-instance/string faults, is not the textual successor of k) is loaded and its
 STEPwrite text denotes the values it has in the file.
 """
+LEVEL = 'fault_enumeration'
 import copy
 import random
 from .. import gen_p21, p21fam, ref_p21, run, probes, gen_schema
